@@ -57,9 +57,10 @@ int main (void)
           const char *ns = g_irepository_load_typelib (NULL, t, 0, &err);
           if (ns) printf ("OK %s\n", ns); else report_err (err);
         }
-      else if (line[0] == 'I' && sscanf (line, "I %1023s", a) == 1)
+      else if (line[0] == 'I' && line[1] == ' ' && line[2])
         {
-          GITypelib *t = typelib_from_file (a);
+          /* the rest of the line is the path: file names may contain blanks ("Nab- 2.0.typelib") */
+          GITypelib *t = typelib_from_file (line + 2);
           if (!t) { printf ("BADFILE\n"); continue; }
           Header *h = (Header *) t->data;
           printf ("INFO %s %s [%s]\n", g_typelib_get_string (t, h->namespace), g_typelib_get_string (t, h->nsversion),
